@@ -138,12 +138,13 @@ PROPS = {
             {"harness": "H_C20_outcome", "reach": ["failed", "added", "updated", "passed"], "quick": {"faults": 1}, "thorough": {"faults": 1}},
             {"harness": "H_C20_summary"},
             {"harness": "H_C20_skips", "quick": {"skips": 3}, "thorough": {"skips": 4}},
+            {"harness": "H_C20_concurrent", "stress": 20000},
         ],
         "bounds": {"quick": "one call: CI x Update option x UPDATE_SNAPS (<= 4 bytes) x 5 entry points x entry state, every file-system operation may fail; "
                             "a test name longer than NAME_MAX (real write failure); summary: counters in {0,1,2,11}, 0..2 obsolete files and tests, both modes; 1..3 Skip*/Skipf/SkipNow calls on TestP, TestP/child, TestQ followed by Clean",
                    "thorough": "1..4 skip calls"},
         "assumptions": COMMON_ASSUME + ["MatchSnapshot is called with at least one value"],
-        "outside": ["concurrent bumps of the counters (schedules)"],
+        "outside": ["more than two goroutines; the data-race clause beyond lost updates of the counters and the skip list"],
     },
     "C07": {
         "runs": [
